@@ -17,6 +17,13 @@ mod c05;
 mod c16;
 mod c01;
 mod c03;
+mod rec;
+mod c02;
+mod c09;
+mod c16b;
+mod c12;
+mod c19;
+mod c14;
 
 pub struct Budget {
     pub end: Instant,
@@ -37,9 +44,14 @@ fn run_one(pid: &str, input: &Value) -> Option<Value> {
         "C11" => c11::run(&input),
         "C04" => c04::run(&input),
         "C05" => c05::run(&input),
-        "C16" => c16::run(&input),
+        "C16" => if input.get("needle").is_some() { c16b::run(&input) } else { c16::run(&input) },
         "C01" | "C08" => c01::run(&input),
         "C03" | "C13" => c03::run(&input),
+        "C02" => c02::run(&input),
+        "C09" => c09::run(&input),
+        "C12" => c12::run(&input),
+        "C19" => c19::run(&input),
+        "C14" => c14::run(&input),
         _ => None,
     });
     match r {
@@ -64,9 +76,14 @@ fn gen(pid: &str, r: &mut rng::Rng) -> Option<Value> {
         "C11" => Some(c11::gen(r)),
         "C04" => Some(c04::gen(r)),
         "C05" => Some(c05::gen(r)),
-        "C16" => Some(c16::gen(r)),
+        "C16" => Some(if r.chance(1, 2) { c16::gen(r) } else { c16b::gen(r) }),
         "C01" | "C08" => Some(c01::gen(r)),
         "C03" | "C13" => Some(c03::gen(r)),
+        "C02" => Some(c02::gen(r)),
+        "C09" => Some(c09::gen(r)),
+        "C12" => Some(c12::gen(r)),
+        "C19" => Some(c19::gen(r)),
+        "C14" => Some(c14::gen(r)),
         _ => None,
     }
 }
